@@ -11,7 +11,7 @@ R-RAISEMSG  the message of each raise in an accessor is built without an operati
 import ast
 from ..model import AnalysisError, src, loc, call_name, dotted, qualname, norm_stmt, is_const, params_of
 from .. import flow
-from . import common
+from . import common, solveprog
 
 LEVEL = "other"
 EXPLANATION = ("Path rules over the syntax trees of the 6 value/dual accessors, the solve root, both back-ends' solve methods, "
@@ -558,6 +558,7 @@ def run(ctx):
     r_raise_message(ctx)
     r_operand_access(ctx)
     r_none(ctx)
+    solveprog.r_solve_program(ctx, {"none"})
     no = r_options(ctx)
     ctx.floor("except clauses", ne, 2)
     ctx.floor("accessors", na, 6)
